@@ -224,7 +224,7 @@ PROFILE = {
                'transports': st.sampled_from([None, None, None, ['polling'], ['websocket']]),
                'ping_interval': st.sampled_from([5, 25]),
                'ping_timeout': st.sampled_from([5, 20]),
-               'max_http_buffer_size': st.sampled_from([1000000, 1000000, 60]),
+               'max_http_buffer_size': st.sampled_from([1000000, 60, 200]),
                'async_handlers': st.just(False)},
     'autopong': [True],
     'autopoll': [True, False],
